@@ -3184,7 +3184,15 @@ func (c *pipelineConnClient) reader(conn net.Conn, stopCh <-chan struct{}, chs *
 				return err
 			}
 		}
-		if err = w.resp.Read(br); err != nil {
+		// A response to HEAD has no body whatever its Content-Length says:
+		// don't take the bytes of the next response for it.
+		customSkipBody := w.resp.SkipBody
+		if w.req.Header.IsHead() {
+			w.resp.SkipBody = true
+		}
+		err = w.resp.Read(br)
+		w.resp.SkipBody = customSkipBody
+		if err != nil {
 			w.err = err
 			w.done <- struct{}{}
 			return err
